@@ -2,6 +2,8 @@
     Statements only; proofs in Wrapper/RunProofs.v (model: Wrapper/Run.v, transcribed from src/IPhreeqc.cpp). *)
 From Coq Require Import List ZArith String Bool.
 From IPV.Wrapper Require Import Run RunProofs.
+From IPV.C04 Require Import PerCall.
+From IPV.Gen Require Import Gen_C04.
 Import ListNotations.
 Local Open Scope list_scope.
 
@@ -58,3 +60,15 @@ Print Assumptions C04_deliver_is_do_run.
 Print Assumptions C04_run_chunks_eq_run_whole.
 Print Assumptions C04_accumulate_run_eq_runstring.
 Print Assumptions C04_definitions_persist.
+
+(** T-gen (regenerated on every run from src/IPhreeqc.cpp and the engine sources): do_run re-initialises exactly
+    [first_read_input] and [simulation] per call, and every read of either is a reviewed site whose channel is not part
+    of the compared result data (C04/PerCall.v) — the syntactic side of the engine hypothesis [first_irrelevant]. *)
+Theorem C04_percall_state_reads_reviewed : percall_reads_reviewed percall_vars_set_by_do_run percall_reads = true.
+Proof. vm_compute. reflexivity. Qed.
+Print Assumptions C04_percall_state_reads_reviewed.
+Theorem C04_percall_obligation_sound : forall vars reads, percall_reads_reviewed vars reads = true ->
+  vars = ["first_read_input"; "simulation"]%string /\
+  forall fn v, In (fn, v) reads -> exists c, In (fn, v, c) reviewed.
+Proof. exact percall_obligation_sound. Qed.
+Print Assumptions C04_percall_obligation_sound.
